@@ -39,6 +39,9 @@ pub struct SchedParams {
     pub drop_sender_64: u32,
     /// consumer: prefer dropping several refs between polls
     pub multi_drop: bool,
+    /// per-step probability (over 64) of starting a burst: a run of external
+    /// events (releases / FnRef drops) with no poll in between
+    pub burst_64: u32,
 }
 
 impl SchedParams {
@@ -54,6 +57,7 @@ impl SchedParams {
             "forget_64": self.forget_64,
             "drop_sender_64": self.drop_sender_64,
             "multi_drop": self.multi_drop,
+            "burst_64": self.burst_64,
         })
     }
 }
@@ -62,6 +66,8 @@ pub struct RunSched {
     pub rng: Rng,
     pub p: SchedParams,
     pub mids_this_poll: u32,
+    pub burst_left: usize,
+    pub fired_burst: bool,
 }
 
 impl RunSched {
@@ -135,6 +141,21 @@ impl RunSched {
             return acts[0];
         }
         if !poll_ok {
+            return self.pick_external(v, &ext);
+        }
+        // bursts: everything (or a good part of what is) outstanding completes before
+        // the task is polled again
+        if self.burst_left > 0 {
+            self.burst_left -= 1;
+            return self.pick_external(v, &ext);
+        }
+        if self.p.burst_64 > 0 && ext.len() >= 2 && self.rng.chance(self.p.burst_64, 64) {
+            self.burst_left = match self.rng.below(3) {
+                0 => ext.len() - 1,
+                1 => ext.len() / 2,
+                _ => self.rng.below(ext.len()),
+            };
+            self.fired_burst = true;
             return self.pick_external(v, &ext);
         }
         let spurious = !v.woken && self.p.spurious_16 > 0 && self.rng.chance(self.p.spurious_16, 16);
